@@ -480,6 +480,130 @@ Definition positions_with_children (gt : list Goto.brow) : list string :=
 Definition parents_without_block (dt : list dblock) (gt : list Goto.brow) : list string :=
   filter (fun l => smem l (positions_with_children gt)) (positions_without_block dt gt).
 
+(* ---- single children (CGNS_DELETE_CHILD arms): by what does the dispatcher select them?
+   The mirror keeps a single child of kind (label) L in a pointer field; on read it is found BY LABEL (or, for a few, by a
+   reserved name the reader itself compares with).  cg_delete_node has removed the node the user NAMED from the file; the
+   arm that frees the pointer must fire for that node whatever it is called.  An arm that tests node_name is right only
+   for a kind every writer creates under that literal name; a kind whose name the caller chooses (cg_biter_write,
+   cg_ziter_write, cg_piter_write take the name) needs the arm that tests node_label. *)
+Inductive cnames := CNames (parent label : string) (names : option (list string)) | CNamesUnparsed (why : string).
+
+Definition names_of (cn : list cnames) (pl l : string) : option (option (list string)) :=
+  first_some (fun r => match r with
+                       | CNames p l' ns => if String.eqb p pl && String.eqb l' l then Some ns else None
+                       | CNamesUnparsed _ => None
+                       end) cn.
+
+Definition act_children (acts : list sact) : list string :=
+  List.concat (map (fun a => match a with Child p _ _ => [p] | _ => [] end) acts).
+(* the pointer fields the dispatcher frees for a node labelled nl and called nn under a parent labelled pl *)
+Definition disp_single (dt : list dblock) (nd : list ndrow) (pl nl nn : string) : list string :=
+  if refused nd pl nl nn then [] else
+  match find_dblock dt pl with
+  | Some (DBlock _ _ rows) => match find (row_matches pl nl nn) rows with Some (DRow _ acts _) => act_children acts | _ => [] end
+  | _ => []
+  end.
+Definition disp_single_lab (dt : list dblock) (nd : list ndrow) (pl nl : string) : list string :=
+  if refused_lab nd pl nl then [] else
+  match find_dblock dt pl with
+  | Some (DBlock _ _ rows) => match find (row_matches_lab nl) rows with Some (DRow _ acts _) => act_children acts | _ => [] end
+  | _ => []
+  end.
+
+(* the single children the goto table knows under pl: (label, pointer field) *)
+Definition alt_single (a : Goto.alt) : option string :=
+  match a with Goto.ASingle _ _ pp _ _ _ _ => Some pp | Goto.AMulti _ _ _ _ _ _ _ _ _ _ _ => None end.
+Definition arm_singles (a : Goto.arm) : list (string * string) :=
+  match a with
+  | Goto.Arm cs alts => List.concat (map (fun c => List.concat (map (fun x => match alt_single x with Some p => [(c, p)] | None => [] end) alts)) cs)
+  | _ => []
+  end.
+Definition goto_singles (gt : list Goto.brow) (pl : string) : list (string * string) :=
+  match Goto.find_block gt pl with
+  | Some (Goto.Block _ _ arms) => List.concat (map arm_singles arms)
+  | _ => []
+  end.
+
+Definition rows_of (dt : list dblock) (pl : string) : list drow :=
+  match find_dblock dt pl with Some (DBlock _ _ rows) => rows | _ => [] end.
+Definition row_frees (ptr : string) (r : drow) : bool :=
+  match r with DRow _ acts _ => smem ptr (act_children acts) | DUnparsedRow _ => false end.
+Definition row_name_lits (r : drow) : list string := row_names r.
+Definition row_has_label_test (r : drow) : bool :=
+  match r with DRow ts _ _ => existsb (fun t => match t with TLabel _ => true | _ => false end) ts | _ => false end.
+
+(* a single child (l, ptr) of pl that some arm frees is dispatched correctly when
+     - its kind is created under fixed literal names only, and for each of them the arm taken frees ptr (or the name is refused);
+     - or (name chosen by the caller, or no writer row) the arm selected by the LABEL alone frees ptr;
+     - or the arm is by name and every name it tests is one the READER itself identifies the child by. *)
+Definition single_ok (cn : list cnames) (rnt : list string) (dt : list dblock) (nd : list ndrow) (pl : string)
+           (lp : string * string) : bool :=
+  let '(l, ptr) := lp in
+  let rows := filter (row_frees ptr) (rows_of dt pl) in
+  match rows with
+  | [] => true
+  | _ =>
+      match names_of cn pl l with
+      | Some (Some ((_ :: _) as names)) =>
+          (* (the writers' literals are per label, not per parent: GlobalConvergenceHistory / ZoneConvergenceHistory) some
+             literal is dispatched to ptr, and none is dispatched to ANOTHER pointer *)
+          existsb (fun n => refused nd pl l n || smem ptr (disp_single dt nd pl l n)) names
+          && forallb (fun n => match disp_single dt nd pl l n with [] => true | ps => smem ptr ps end) names
+      | _ =>
+          smem ptr (disp_single_lab dt nd pl l)
+          || forallb (fun r => negb (row_has_label_test r) && forallb (fun n => smem n rnt) (row_name_lits r)) rows
+      end
+  end.
+Definition bad_singles (cn : list cnames) (rnt : list string) (dt : list dblock) (nd : list ndrow) (gt : list Goto.brow)
+  : list (string * string * string) :=
+  List.concat (map (fun pl => map (fun lp => (pl, fst lp, snd lp))
+                                  (filter (fun lp => negb (single_ok cn rnt dt nd pl lp)) (goto_singles gt pl)))
+                   (all_positions gt)).
+(* the single children whose NAME the caller chooses and that some arm frees (not counting the children the READER tells
+   by name): the histories must give them other names than the default ones.  Deliberately independent of HOW the arm
+   selects them. *)
+Definition user_named_singles (cn : list cnames) (rnt : list string) (dt : list dblock) (gt : list Goto.brow)
+  : list (string * string * string) :=
+  List.concat (map (fun pl => map (fun lp => (pl, fst lp, snd lp))
+                                  (filter (fun lp => match names_of cn pl (fst lp) with
+                                                     | Some (Some (_ :: _)) => false
+                                                     | _ => let rows := filter (row_frees (snd lp)) (rows_of dt pl) in
+                                                            negb (match rows with [] => true | _ => false end)
+                                                            && negb (forallb (fun r => negb (row_has_label_test r)
+                                                                                && negb (match row_name_lits r with [] => true | _ => false end)
+                                                                                && forallb (fun n => smem n rnt) (row_name_lits r)) rows)
+                                                     end) (goto_singles gt pl)))
+                   (all_positions gt)).
+(* ... those of them that the arm selected by the label alone frees *)
+Definition label_freed_singles (cn : list cnames) (rnt : list string) (dt : list dblock) (nd : list ndrow) (gt : list Goto.brow)
+  : list (string * string * string) :=
+  filter (fun t => let '(pl, l, ptr) := t in smem ptr (disp_single_lab dt nd pl l)) (user_named_singles cn rnt dt gt).
+(* ... and the reserved names under which such a child would NOT be freed although the label arm exists: a name arm
+   precedes it (same family as [shadowed]) *)
+Definition shadowed_singles (cn : list cnames) (rnt : list string) (dt : list dblock) (nd : list ndrow) (gt : list Goto.brow)
+  : list (string * string * string) :=
+  List.concat (map (fun t => let '(pl, l, ptr) := t in
+                       List.concat (map (fun nm => if smem ptr (disp_single dt nd pl l nm) || refused nd pl l nm then [] else [(pl, l, nm)])
+                                        (dedup (reserved_names dt nd pl))))
+                   (label_freed_singles cn rnt dt nd gt)).
+(* every NAME an arm of block pl compares with is the fixed name of some child kind of pl (all its writers use that
+   literal), or a name the reader itself identifies a child by *)
+Definition fixed_name_under (cn : list cnames) (pl n : string) : bool :=
+  existsb (fun r => match r with CNames p _ (Some ns) => String.eqb p pl && smem n ns | _ => false end) cn.
+Definition unjustified_names (cn : list cnames) (rnt : list string) (dt : list dblock) : list (string * string) :=
+  List.concat (map (fun b => match b with
+     | DBlock ps _ rows =>
+         (* (a block shared by two parent labels -- BCDataSet_t / FamilyBCDataSet_t -- needs the justification under one) *)
+         map (fun n => (match ps with p :: _ => p | [] => "?" end, n))
+             (filter (fun n => negb (existsb (fun p => fixed_name_under cn p n) ps || smem n rnt))
+                     (dedup (List.concat (map row_names rows))))
+     | DUnparsedBlock _ => [] end) dt).
+Definition cnames_parsed (cn : list cnames) : bool :=
+  forallb (fun r => match r with CNames _ _ _ => true | CNamesUnparsed _ => false end) cn && Nat.leb 100 (List.length cn).
+Definition singles_ok (cn : list cnames) (rnt : list string) (dt : list dblock) (nd : list ndrow) (gt : list Goto.brow) : bool :=
+  cnames_parsed cn && match bad_singles cn rnt dt nd gt with [] => true | _ => false end
+  && match unjustified_names cn rnt dt with [] => true | _ => false end.
+
 (* ---- decidable consistency of the regenerated tables *)
 Definition expected_preamble : list string :=
   ["CHECK_FILE_OPEN"; "mode_is_modify"; "cgi_posit_id"; "cgio_get_node_id(posit_id,node_name)"; "cgio_get_label(node_id)";
